@@ -206,7 +206,37 @@ func structFacts(e *env, p func(format string, args ...any)) {
 	if poolFields != 2 {
 		limitIsParam = false
 	}
+	// (6) the response accessors of the three client conns wait for the response before they hand
+	// out the header / trailer maps that the request goroutine fills
+	accessorsWait := true
+	nAcc := 0
+	for _, typ := range []string{"grpcClientConn", "connectStreamingClientConn", "connectUnaryClientConn"} {
+		for _, m := range []string{"ResponseHeader", "ResponseTrailer"} {
+			fd, ok := e.funcs[typ+"."+m]
+			if !ok {
+				e.fail("%s.%s not found", typ, m)
+				accessorsWait = false
+				continue
+			}
+			first := false
+			if len(fd.Body.List) > 0 {
+				if es, ok := fd.Body.List[0].(*ast.ExprStmt); ok {
+					if ce, ok := es.X.(*ast.CallExpr); ok {
+						if se, ok := ce.Fun.(*ast.SelectorExpr); ok && se.Sel.Name == "BlockUntilResponseReady" {
+							first = true
+						}
+					}
+				}
+			}
+			if first {
+				nAcc++
+			} else {
+				accessorsWait = false
+			}
+		}
+	}
 	p("\n(* ---- further structural facts (from the AST) ---- *)\n")
+	p("Definition client_accessors_wait_for_response : bool := %s. (* ResponseHeader / ResponseTrailer of the three client conns start with BlockUntilResponseReady: %d of 6 *)\n", b(accessorsWait), nAcc)
 	p("Definition recover_flag_is_per_call : bool := %s. (* `panicked` declared inside the returned function literal of WrapUnary / WrapStreamingHandler: %d of 2 *)\n", b(perCall), nFlags)
 	p("Definition client_new_conn_uses_chain_context : bool := %s. (* Client.newConn: the innermost function hands its own ctx parameter to NewConn *)\n", b(chainCtx))
 	p("Definition server_stream_merges_request_headers : bool := %s. (* Client.CallServerStream uses mergeHeaders, no per-key assignment *)\n", b(merges))
